@@ -424,7 +424,7 @@ func (self *Engine) Make(passport Passport, proposal *Proposal, now EpochTime) e
 	t := self.getCreateTraveller(passport,now)
 	err := t.Promises.make(proposal,self.Administrator.predictor)
 	if (err == nil) {
-		self.Travellers.PutTraveller(*t)
+		err = self.Travellers.PutTraveller(*t)
 	}
 	return err
 }
